@@ -1,5 +1,5 @@
 CONSTANTS
-  Dev = {}
+  Dev <- EnvDev
 SPECIFICATION TSpec
 POSTCONDITION Accepted
 CHECK_DEADLOCK FALSE
